@@ -54,6 +54,10 @@ def _install_tempfiles():
             f.truncate()
     wpull.body.new_temp_file = new_temp_file
     wpull.util.truncate_file = truncate_file
+    # fixed clock for the robots.txt parser (it only stamps an expiry date that wpull never reads)
+    import time as _time
+    import wpull.thirdparty.robotexclusionrulesparser as _rp
+    _rp.time = types.SimpleNamespace(time=lambda: 1577934245.0, gmtime=_time.gmtime, mktime=_time.mktime)
 
 
 _ROBOTS_URL = 'http://h.example/robots.txt'
@@ -166,6 +170,68 @@ def _fetched_once_before(o1, o2, o3, p1, p2, p3, n, robots_status_i):
         if rstatus == 200 and URLInfo.parse(u).path.startswith('/private') and row.status != Status.skipped:
             return False
     return True
+
+
+def _log_ok(urls, rstatus_of):
+    """Request-log oracle: robots.txt of an origin obtained before any other URL of it, not again once obtained, nothing disallowed."""
+    got_robots = {}
+    for u in urls:
+        info = URLInfo.parse(u)
+        origin = (info.scheme, info.hostname, info.port)
+        rstatus = rstatus_of(origin)
+        if info.path == '/robots.txt':
+            if got_robots.get(origin) == 'ok':
+                return False
+            got_robots[origin] = 'ok' if rstatus != 503 else 'error'
+        else:
+            if got_robots.get(origin) != 'ok':
+                return False
+            if rstatus == 200 and info.path.startswith('/private'):
+                return False
+    return True
+
+
+def _redirect_target(o1, o2, p2, code_i, two_hops, robots2_i):
+    """An allowed page answers with a redirect to a page that may be disallowed - on the same or on another origin."""
+    clear_url_memo()
+    with nosym():
+        _install_tempfiles()
+    start = pick(_ORIGINS, o1) + '/open/1'
+    target = pick(_ORIGINS, o2) + pick(_PAGES, p2)
+    code = pick([301, 302, 303, 307, 308], code_i)
+    r2 = pick([200, 404, 503], robots2_i)
+    org1 = URLInfo.parse(start)
+    org2 = URLInfo.parse(target)
+    same_origin = (org1.scheme, org1.hostname, org1.port) == (org2.scheme, org2.hostname, org2.port)
+
+    def rstatus_of(origin):
+        return 200 if same_origin or origin == (org1.scheme, org1.hostname, org1.port) else r2
+
+    def answer(k, request):
+        info = request.url_info
+        if info.path == '/robots.txt':
+            return (rstatus_of((info.scheme, info.hostname, info.port)), None)
+        if info.url == URLInfo.parse(start).url:
+            return (code, (start + '?hop') if two_hops else target)
+        if two_hops and info.query == 'hop':
+            return (code, target)
+        return (200, None)
+    with nosym():
+        client = stubs.StubHTTPClient(answer=answer)
+        client.body_for = lambda resp: _RULES if resp.request.url_info.path == '/robots.txt' else b''
+        checker = RobotsTxtChecker(web_client=WebClient(http_client=client))
+        env = stubs.build_web(client, filters=[F.SchemeFilter()], robots_checker=checker)
+        _install_tempfiles()
+        env.table.add(start)
+        rec = env.table.check_out(Status.todo)
+        item = ItemSession(env.app, rec)
+    run(env.proc.process(item))
+    if not item.is_processed:
+        return False
+    hit('same-origin' if same_origin else 'cross-origin')
+    if target.endswith('/private/x'):
+        hit('to-disallowed')
+    return _log_ok(client.urls, rstatus_of)
 
 
 # ---------------------------------------------------------------- matcher vs reference
@@ -314,6 +380,16 @@ HARNESSES = [
       doc='WebProcessorSession.process over 2 (thorough 3) URLs on 1-2 origins differing in scheme / host / port, in symbolic order: in the '
           'request log the robots.txt of an origin comes strictly before any other URL of that origin and at most once; disallowed URLs '
           'are never requested (skipped); with a 503 nothing of the origin is requested and the items end in error (postponed)'),
+    H('redirect_target', '_redirect_target', 'o1: int, o2: int, p2: int, code_i: int, two_hops: bool, robots2_i: int',
+      pre=['0 <= o1 <= 3 and 0 <= o2 <= 3 and 0 <= p2 <= 2 and 0 <= code_i <= 4 and 0 <= robots2_i <= 2'],
+      parts=[{'tag': 'to%d_hops%d' % (o, h), 'fix': {'two_hops': str(bool(h)), 'o2': str(o)}, 'pre': ['o1 == 0 or o1 == 3']} for o in range(4) for h in (0, 1)],
+      timeout={'quick': 280, 'thorough': 900}, samples=[(0, 0, 1, 1, False, 0), (0, 3, 1, 0, False, 0), (0, 3, 0, 0, True, 2)],
+      need=['same-origin', 'cross-origin', 'to-disallowed'],
+      funcs=['wpull/processor/web.py:WebProcessorSession._process_loop', 'wpull/processor/rule.py:FetchRule.check_subsequent_web_request',
+             'wpull/protocol/http/robots.py:RobotsTxtChecker.can_fetch'],
+      doc='an allowed page redirects (5 codes, 1-2 hops) to an allowed or disallowed page of the same or another origin (robots.txt of '
+          'the other origin 200 / 404 / 503): over the request log, no disallowed URL is requested and every origin\'s robots.txt is '
+          'obtained before its first URL'),
     H('matcher', '_matcher',
       'agent_kind: int, ua_i: int, r1n: int, r1a: int, r1b: int, r2on: bool, r2n: int, r2a: int, r2b: int, cn: int, ca: int, cb: int, second_group: bool, qmode: int',
       pre=['0 <= agent_kind <= 2 and 0 <= ua_i <= 3 and 0 <= r1n <= 2 and 0 <= r2n <= 2 and 0 <= cn <= 2 and 0 <= qmode <= 2',
